@@ -28,6 +28,10 @@ Round-3 extensions (same command line, same `translate_all` interface; existing 
     `getD · 0.0`, written with `List.set`), pointers to the parameter structures `ESL_HYPEREXP`, `ESL_MIXGEV`
     (a Lean `structure` with the members the translated functions use; `h->wrk[k] = e` updates the structure value
     local to the call: the scratch vector is not carried across calls), `void *params` immediately cast to one of these.
+
+Round-6 extension: a primitive draw INSIDE a `do … while` / `while` loop (`esl_gam_Sample`'s redraw loop).  The generator
+parameter then becomes the STREAM of variates `u : Nat → α` (an array as a function); the draw in iteration `i` of the loop
+(`i = fuel − (gas + 1)`, `gas` = the iterations still allowed) reads `u i`.  `none` = fuel exhausted = the C loop would draw again.
 """
 import json, os, re, subprocess, sys
 
@@ -118,6 +122,7 @@ class FnTranslator:
         self.rng_used = 0
         self.rng_prim = None
         self.rng_args = []
+        self.rng_stream = False    # round 6: the draw sits inside a do/while loop -> `u : Nat → α`
         self.choice = None
         self.n_leaves = 0
         self.leaf_paths = []
@@ -153,7 +158,7 @@ class FnTranslator:
         return None
 
     def lean_type(self, kind):
-        return {"d": "α", "int": "Nat", "arr": "List α", "rng": "α"}.get(kind) or "%s α" % kind.split(":", 1)[1]
+        return {"d": "α", "int": "Nat", "arr": "List α", "rng": "α", "rngs": "Nat → α"}.get(kind) or "%s α" % kind.split(":", 1)[1]
 
     def strip(self, n, cstyle=False):
         while True:
@@ -345,6 +350,10 @@ class FnTranslator:
                     raise Unsupported("%s: more than one deviate drawn" % self.where(n))
                 self.rng_prim = fn
                 self.rng_args = [self.expr(x) for x in args[1:]]     # e.g. the shape passed to esl_rnd_Gamma
+                if self.rng_stream:
+                    if len(self.loop_stack) != 1 or self.loop_stack[0] is None:
+                        raise Unsupported("%s: a streamed draw must sit directly in one do/while loop" % self.where(n))
+                    return "(u (fuel - (gas + 1)))"          # iteration index of the enclosing loop helper
                 return "u"
             if fn in self.known:
                 if fn in self.partial_fns:
@@ -457,6 +466,26 @@ class FnTranslator:
                 self.assigned_roots(c, out)
         return out
 
+    def refs(self, n, out):
+        if isinstance(n, dict):
+            if n.get("kind") == "DeclRefExpr" and n.get("referencedDecl", {}).get("kind") in ("VarDecl", "ParmVarDecl"):
+                out.add(n["referencedDecl"]["name"])
+            for c in n.get("inner", []):
+                self.refs(c, out)
+        return out
+
+    def live_in(self, stmts, v):
+        """is the value `v` holds on entry to `stmts` read before `v` is assigned again? (conservative: a compound statement
+           that mentions `v` counts as a read)"""
+        for st in stmts:
+            c = self.strip(st) if st.get("kind") in ("ParenExpr", "ImplicitCastExpr") else st
+            if c.get("kind") == "BinaryOperator" and c.get("opcode") == "=" and self.lhs_root(c["inner"][0]) == v \
+                    and self.strip(c["inner"][0])["kind"] == "DeclRefExpr" and v not in self.refs(c["inner"][1], set()):
+                return False
+            if v in self.refs(st, set()):
+                return True
+        return False
+
     def binders(self, names):
         """`(a b : α) (h : ESL_HYPEREXP α)` for the variables `names` (C names)"""
         out, run, last = [], [], None
@@ -464,7 +493,7 @@ class FnTranslator:
             t = self.lean_type(self.vkind[nm])
             if t != last and run:
                 out.append("(%s : %s)" % (" ".join(run), last)); run = []
-            run.append("u" if self.vkind[nm] == "rng" else self.ident(nm)); last = t
+            run.append("u" if self.vkind[nm] in ("rng", "rngs") else self.ident(nm)); last = t
         if run:
             out.append("(%s : %s)" % (" ".join(run), last))
         return " ".join(out)
@@ -492,7 +521,7 @@ class FnTranslator:
         if k == "_Yield":
             return [pad + self.ident(s["var"])]
         if k == "_LoopTest":
-            call = "%s fuel %s gas" % (s["loop"], " ".join(self.ident(v) for v in s["pars"]))
+            call = "%s fuel %s gas" % (s["loop"], " ".join("u" if self.vkind[v] in ("rng", "rngs") else self.ident(v) for v in s["pars"]))
             if s["cond"] is None:
                 return [pad + call]
             return [pad + "if %s then" % self.cond(s["cond"]), pad + "  " + call, pad + "else", pad + "  " + s["exit"]]
@@ -671,11 +700,18 @@ class FnTranslator:
         pars = list(scope)
         loop_name, exit_name = "%s_loop%d" % (self.name, idx), "%s_exit%d" % (self.name, idx)
         bind = self.binders(pars)
-        names = " ".join("u" if self.vkind[v] == "rng" else self.ident(v) for v in pars)
-        exit_lines = self.block(rest, 1, pars)
+        names = " ".join("u" if self.vkind[v] in ("rng", "rngs") else self.ident(v) for v in pars)
+        # round 6: a variable declared before a do-while without a value, assigned in its body (which runs at least once) and
+        # read after the loop before being assigned again is handed to the continuation (`double x; do { x = … } while (…); return x;`)
+        live = []
+        if s["kind"] == "DoStmt":
+            live = [v for v in self.assigned_roots(body, []) if v not in pars and self.vkind.get(v) == "d" and self.live_in(rest, v)]
+        xpars = pars + live
+        xnames = " ".join("u" if self.vkind[v] in ("rng", "rngs") else self.ident(v) for v in xpars)
+        exit_lines = self.block(rest, 1, xpars)
         self.helpers.append("/-- `%s`: the code after loop %d (line %s) -/\ndef %s (fuel : Nat) %s : Option α :=\n%s\n" % (
-            self.name, idx, s.get("range", {}).get("begin", {}).get("line", "?"), exit_name, bind, "\n".join(exit_lines)))
-        exit_call = "%s fuel %s" % (exit_name, names)
+            self.name, idx, s.get("range", {}).get("begin", {}).get("line", "?"), exit_name, self.binders(xpars), "\n".join(exit_lines)))
+        exit_call = "%s fuel %s" % (exit_name, xnames)
         test = {"kind": "_LoopTest", "cond": cond, "loop": loop_name, "pars": pars, "exit": exit_call}
         self.loop_stack.append(exit_call)
         if s["kind"] == "DoStmt":
@@ -709,6 +745,11 @@ class FnTranslator:
             raise Unsupported("%s: return type %s" % (self.where(), self.f["type"]["qualType"]))
         if body is None:
             raise Unsupported("%s: no body" % self.where())
+        if self.rng_param is not None:
+            for loop in self.collect(body, "DoStmt") + self.collect(body, "WhileStmt"):
+                if any(self.callee(c) in RNG_PRIMS for c in self.collect(loop, "CallExpr")):
+                    self.rng_stream = True
+                    self.vkind[self.rng_param] = "rngs"
         self.partial = self.contains_kind(body, ("DoStmt", "WhileStmt")) or any(
             r.get("inner") and self.strip(r["inner"][0])["kind"] == "CallExpr" and self.callee(self.strip(r["inner"][0])) in self.partial_fns
             for r in self.collect(body, "ReturnStmt"))
@@ -723,7 +764,9 @@ class FnTranslator:
         kinds = [self.vkind[p] for p in params]
         line = self.f.get("loc", {}).get("line", "?")
         note = ""
-        if self.rng_prim and self.rng_prim != "esl_rnd_UniformPositive":
+        if self.rng_stream:
+            note += "; `u i` = the variate the i-th call `%s(r, …)` yields (stream; `none` = fuel exhausted, the loop would draw again)" % self.rng_prim
+        elif self.rng_prim and self.rng_prim != "esl_rnd_UniformPositive":
             note += "; `u` = the variate `%s(r, …)` yields" % self.rng_prim
         if self.choice is not None:
             note += "; `%s` = the component `esl_rnd_DChoose(r, …)` yields" % self.ident(self.choice)
@@ -751,7 +794,7 @@ class FnTranslator:
             self.has_leaf_twin = True
             self.n_leaves = n
         self.has_draw = False
-        if self.rng_args and all(kd in ("d", "rng") for kd in kinds) and not self.partial and not self.helpers \
+        if self.rng_args and ((all(kd in ("d", "rng") for kd in kinds) and not self.partial and not self.helpers) or self.rng_stream) \
                 and all(re.fullmatch(r"[\w.()/*+\- ]+", e) and not (set(re.findall(r"[A-Za-z_]\w*", e)) - set(self.ident(p) for p in params if self.vkind[p] == "d") - {"Num"})
                         for e in self.rng_args):
             # the arguments handed to the primitive draw (functions of the parameters only)
@@ -892,7 +935,7 @@ FAMILIES = [
     ("esl_stretchexp.c", "esl_sxp_", ["esl_sxp_pdf", "esl_sxp_logpdf", "esl_sxp_cdf", "esl_sxp_logcdf", "esl_sxp_surv",
                                       "esl_sxp_logsurv", "esl_sxp_invcdf", "esl_sxp_Sample"] + ["esl_sxp_" + g for g in GEN4]),
     ("esl_gamma.c", "esl_gam_", ["esl_gam_pdf", "esl_gam_logpdf", "esl_gam_cdf", "esl_gam_logcdf", "esl_gam_surv",
-                                 "esl_gam_logsurv", "esl_gam_invcdf"] + ["esl_gam_" + g for g in GEN4]),
+                                 "esl_gam_logsurv", "esl_gam_invcdf", "esl_gam_Sample"] + ["esl_gam_" + g for g in GEN4]),
     ("esl_normal.c", "esl_normal_", ["esl_normal_pdf", "esl_normal_logpdf", "esl_normal_cdf", "esl_normal_surv"] +
      ["esl_normal_" + g for g in GEN4[:3]]),
     ("esl_lognormal.c", "esl_lognormal_", ["esl_lognormal_pdf", "esl_lognormal_logpdf", "esl_lognormal_Sample"]),
